@@ -215,7 +215,78 @@ func concDoc(a M) *didtypes.DIDDocument {
 	for _, n := range as {
 		doc.AssertionMethods = append(doc.AssertionMethods, didtypes.NewVerificationRelationship(vmID(did, n)))
 	}
+	if str(a, "ex") == "rich" {
+		richExtras(doc, did)
+	}
 	return doc
+}
+
+// controllerOf: the DID a "rich" document names as its controller (another DID of the dictionary, possibly unregistered)
+func controllerOf(did string) string {
+	switch didRev[did] {
+	case "d1":
+		return didDict["dc"]
+	case "dc":
+		return didDict["d2"]
+	default:
+		return didDict["d1"]
+	}
+}
+
+const extraCtx = "https://x.example/ctx"
+
+// richExtras adds everything a document may carry besides its keys: a controller, a second context, a dedicated key
+// agreement method, a capability invocation, and three services two of which share an id.
+func richExtras(doc *didtypes.DIDDocument, did string) {
+	doc.Contexts = &didtypes.JSONStringOrStrings{didtypes.ContextDIDV1, extraCtx}
+	doc.Controller = &didtypes.JSONStringOrStrings{controllerOf(did)}
+	doc.KeyAgreements = []didtypes.VerificationRelationship{didtypes.NewVerificationRelationshipDedicated(
+		didtypes.VerificationMethod{Id: vmID(did, "ka"), Type: didtypes.X25519_2019, Controller: did, PublicKeyBase58: didKeys["k3"].B58})}
+	if len(doc.VerificationMethods) > 0 {
+		doc.CapabilityInvocations = []didtypes.VerificationRelationship{didtypes.NewVerificationRelationship(doc.VerificationMethods[0].Id)}
+	}
+	doc.Services = []*didtypes.Service{
+		{Id: did + "#hub", Type: "Hub", ServiceEndpoint: "https://hub.example/1"},
+		{Id: did + "#agent", Type: "Agent", ServiceEndpoint: "https://agent.example"},
+		{Id: did + "#hub", Type: "Hub", ServiceEndpoint: "https://hub.example/2"},
+	}
+}
+
+// isRich: the document carries exactly the extras richExtras adds (compared on the encoded form of a freshly built copy)
+func isRich(doc *didtypes.DIDDocument) bool {
+	probe := &didtypes.DIDDocument{Id: doc.Id, VerificationMethods: doc.VerificationMethods}
+	richExtras(probe, doc.Id)
+	eq := func(a, b []didtypes.VerificationRelationship) bool {
+		if len(a) != len(b) {
+			return false
+		}
+		for i := range a {
+			x, _ := a[i].Marshal()
+			y, _ := b[i].Marshal()
+			if string(x) != string(y) {
+				return false
+			}
+		}
+		return true
+	}
+	if doc.Contexts == nil || len(*doc.Contexts) != 2 || (*doc.Contexts)[0] != didtypes.ContextDIDV1 || (*doc.Contexts)[1] != extraCtx {
+		return false
+	}
+	if doc.Controller == nil || len(*doc.Controller) != 1 || (*doc.Controller)[0] != controllerOf(doc.Id) {
+		return false
+	}
+	if !eq(doc.KeyAgreements, probe.KeyAgreements) || !eq(doc.CapabilityInvocations, probe.CapabilityInvocations) || len(doc.CapabilityDelegations) != 0 {
+		return false
+	}
+	if len(doc.Services) != len(probe.Services) {
+		return false
+	}
+	for i := range doc.Services {
+		if *doc.Services[i] != *probe.Services[i] {
+			return false
+		}
+	}
+	return true
 }
 
 func sortedRecs(l []any) []M {
@@ -234,7 +305,7 @@ func sortedRecs(l []any) []M {
 
 // absDoc projects a stored document onto the abstract shape; ok=false when something cannot be named.
 func absDoc(doc *didtypes.DIDDocument) (M, bool) {
-	empty := M{"id": "", "vms": []any{}, "auth": []any{}, "asrt": []any{}}
+	empty := M{"id": "", "vms": []any{}, "auth": []any{}, "asrt": []any{}, "ex": ""}
 	if doc == nil || doc.Id == "" {
 		if doc != nil && (len(doc.VerificationMethods) > 0 || len(doc.Authentications) > 0) {
 			return empty, false
@@ -286,7 +357,10 @@ func absDoc(doc *didtypes.DIDDocument) (M, bool) {
 		asrt = append(asrt, name(r.GetVerificationMethodId()))
 	}
 	bare := len(doc.VerificationMethods) == 0 && len(doc.Authentications) == 0 && len(doc.AssertionMethods) == 0 && doc.Contexts == nil
-	if (!bare && (doc.Contexts == nil || len(*doc.Contexts) != 1 || (*doc.Contexts)[0] != didtypes.ContextDIDV1)) || doc.Controller != nil ||
+	out["ex"] = ""
+	if isRich(doc) {
+		out["ex"] = "rich"
+	} else if (!bare && (doc.Contexts == nil || len(*doc.Contexts) != 1 || (*doc.Contexts)[0] != didtypes.ContextDIDV1)) || doc.Controller != nil ||
 		len(doc.KeyAgreements)+len(doc.CapabilityInvocations)+len(doc.CapabilityDelegations)+len(doc.Services) > 0 {
 		ok = false
 	}
